@@ -2,6 +2,7 @@ package config
 
 import (
 	"fmt"
+	"math"
 	"regexp"
 	"strconv"
 	"strings"
@@ -463,6 +464,15 @@ func tryConvertToInt(v any) (int, bool) {
 		return int(value), true
 	case float64:
 		return int(value), true
+	case uint64:
+		// msgpack integers sent in an unsigned format (uint8..uint64) are decoded as uint64
+		if value > math.MaxInt64 {
+			return 0, false
+		}
+		return int(value), true
+	case float32:
+		// msgpack 32-bit floats are decoded as float32
+		return int(value), true
 	case bool:
 		return 0, false
 	case string:
@@ -483,6 +493,12 @@ func tryConvertToFloat(v any) (float64, bool) {
 	case int:
 		return float64(value), true
 	case int64:
+		return float64(value), true
+	case uint64:
+		// msgpack integers sent in an unsigned format (uint8..uint64) are decoded as uint64
+		return float64(value), true
+	case float32:
+		// msgpack 32-bit floats are decoded as float32
 		return float64(value), true
 	case bool:
 		return 0, false
